@@ -331,7 +331,7 @@ var abstractTypes = map[string][]struct {
 	"os.File":         {{"path", SString}, {"pos", SString}},
 	"bufio.Reader":    {{"src", SString}},
 	"bufio.Writer":    {{"path", SString}, {"buffered", SString}},
-	"bufio.Scanner":   {},
+	"bufio.Scanner":   {{"path", SString}, {"consumed", SString}, {"line", SString}, {"failed", SBool}},
 	"regexp.Regexp":   {{"pattern", SString}},
 	"time.Time":       {},
 	"time.Location":   {},
@@ -360,6 +360,8 @@ func isRepoType(t types.Type) bool {
 // ---- engine-level value construction ----
 
 type Engine struct {
+	fnMu    sync.Mutex
+	fnCodes map[*ssa.Function]int64
 	// onFreshStruct is called whenever a symbolic struct value of a named
 	// type is materialised from outside (visible-state type invariants).
 	onFreshStruct func(t types.Type, v *StructV, facts *[]*Term)
@@ -674,8 +676,16 @@ func (e *Engine) freshVal(t types.Type, name string, facts *[]*Term) Val {
 	case *types.Chan:
 		return &ChanV{Nil: Var(name+"$nil", SBool), Obj: e.storeObject(name+"$chan", t, true, "chan"), Elem: u.Elem()}
 	case *types.Interface:
+		// the identity code 0 is the nil value (that is how it is stored in
+		// composite values and read back)
+		if facts != nil {
+			*facts = append(*facts, Eq(Var(name+"$nil", SBool), Eq(Var(name+"$id", SInt), Int(0))))
+		}
 		return &IfaceV{Nil: Var(name+"$nil", SBool), Opaque: Var(name+"$id", SInt), Typ: t}
 	case *types.Signature:
+		if facts != nil {
+			*facts = append(*facts, Eq(Var(name+"$nil", SBool), Eq(Var(name+"$id", SInt), Int(0))))
+		}
 		return &FuncV{Nil: Var(name+"$nil", SBool), Opaque: Var(name+"$id", SInt), Sig: u}
 	case *types.Tuple:
 		tv := &TupleV{}
@@ -847,6 +857,20 @@ func (e *Engine) toTerm(s *State, v Val, t types.Type) *Term {
 	case *FuncV:
 		if x.Opaque != nil {
 			return x.Opaque
+		}
+		// a known function without bindings keeps one code wherever it is stored
+		if fn, ok := x.Fn.(*ssa.Function); ok && len(x.Bind) == 0 {
+			e.fnMu.Lock()
+			if e.fnCodes == nil {
+				e.fnCodes = map[*ssa.Function]int64{}
+			}
+			c, ok := e.fnCodes[fn]
+			if !ok {
+				c = int64(2000000 + len(e.fnCodes))
+				e.fnCodes[fn] = c
+			}
+			e.fnMu.Unlock()
+			return Int(c)
 		}
 		e.nextObj++
 		return Int(int64(1000000 + e.nextObj))
